@@ -243,7 +243,10 @@ def run_impl(c):
             if r == 'token': return Bits(f'{name}={x!r}').uint
             if r == 'pack': return pack(name, x).uint
             if r == 'setattr':
-                a = BitArray(); setattr(a, name, x); return a.uint
+                # the property setter on a mutable object, which is then edited in place: later encodings (any route, any value with this code) must not notice
+                a = BitArray(); setattr(a, name, x); u = a.uint
+                a.invert(); a.set(1, 0); a.append('0b1'); a.reverse()
+                return u
         return attempt(f)
     if op == 'other':
         x = float.fromhex(c['f']) if c['f'] != 'nan' else float('nan')
@@ -252,7 +255,9 @@ def run_impl(c):
                 s = Dtype(name, scale=c['scale']).build(x)          # a scaled dtype encodes value / scale
                 return [s.bin, None]
             s = Bits(**{name: x})
-            return [s.bin, xcanon(getattr(s, name))]
+            out = [s.bin, xcanon(getattr(s, name))]
+            a = BitArray(); setattr(a, name, x); a.invert(); a.append('0b1')       # property assignment + in-place edit: must leave later encodings alone
+            return out
         return attempt(f)
     if op == 'decode_other':
         n = 16 if name.startswith('bfloat') else 8
